@@ -78,7 +78,8 @@ def endStep (s : MSt) : MSt :=
   -- EXTRA: at the end of the first step after a broker client got a new connection (the harness attaches the
   -- write annotations to that step), each of its unanswered requests has been written again
   -- ("the remaining unanswered requests are re-sent on a new one")
-  let isConn := match s2.cur with | some (.conn _ _) => true | _ => false
+  -- (the writes of requests that expect no reply are steps of their own inside `_sendQueued`: `fire k ok none`)
+  let isConn := match s2.cur with | some (.conn _ _) => true | some (.fire _ (.ok .none)) => true | _ => false
   let stale := s2.reqs.filter (fun r => r.pending && s2.reconn.contains r.b && s2.unsent.contains r.k)
   let s3 := if isConn || stale.isEmpty then s2 else failX s2 s!"requests {stale.map (·.k)} were not (re-)sent on the new connection"
   { s3 with owedDisc := [], owedLose := [], lateOf := none, reconn := if isConn then s3.reconn else [] }
